@@ -10,7 +10,7 @@ META = {
     "rule": ("Lp cases = triples of generated profiles over a common candidate set (untied rankings, partial ballots, rational "
              "weights) x p in {1,2,3,5,'inf'}: value vs exact rational p-norm of the normalised distributions (rel 1e-9), "
              "exact zero for reordered / condensed / rescaled copies, symmetry, triangle inequality (1e-12). Graph cases: "
-             "BallotGraph(n) for n=2..6 compared node-for-node and edge-for-edge with an explicit reference (finite space, "
+             "BallotGraph(n) for n=1..6 compared node-for-node and edge-for-edge with an explicit reference (finite space, "
              "enumerated completely on every run); BallotGraph(profile): every cast ballot's weight on its node, node weights "
              "sum to the total weight. distinct = hash(case); non-trivial = three pairwise different distributions (Lp) / a "
              "profile with a length n-1 ballot (graph)."),
@@ -219,6 +219,8 @@ def check_profile_graph(ctx, case):
 
 def run(ctx):
     rnd = ctx.rnd
+    if ctx.shard == 0:
+        ctx.guard("graph_n", check_graph_n, ctx, 1)  # one candidate: the single node (1,)
     if ctx.shard < 5:
         ctx.guard("graph_n", check_graph_n, ctx, 2 + ctx.shard)
     if ctx.nshards < 5 and ctx.shard == 0:
@@ -268,6 +270,12 @@ def run(ctx):
         if n2 >= 2 and rnd.random() < 0.5:
             sp["ballots"].append(canon.spec_ballot(r=[[c] for c in rnd.sample(cs2, n2 - 1)], w=gen.weight(rnd, "rat")))
         ctx.guard("pgraph", check_profile_graph, ctx, {"kind": "pgraph", "profile": sp})
+        if i % 20 == 9:
+            # a one-candidate profile: its whole weight sits on the single node
+            c1 = gen.cands(rnd, 1)
+            sp1 = canon.spec_profile(c1, [canon.spec_ballot(r=[[c1[0]]], w=gen.weight(rnd, "rat")) for _ in range(rnd.randint(1, 3))])
+            ctx.count("one_candidate_profile_graphs")
+            ctx.guard("pgraph", check_profile_graph, ctx, {"kind": "pgraph", "profile": sp1})
 
 
 def replay(ctx, case):
